@@ -15,6 +15,11 @@ if PRIVATE and os.environ.get("PM_SWITCH_REVOKE_VALIDATES"):
     SWITCHES = dict(SWITCHES, revokeValidates=os.environ["PM_SWITCH_REVOKE_VALIDATES"] == "true")
 
 
+def _nm(name):
+    """TLC scratch name (metadir, trace file): a self-test must not collide with a registered run"""
+    return name + ("-private" if PRIVATE else "")
+
+
 def wd(name):
     """scratch directory; a mutation self-test (VERIF_HARNESS_DIR) gets its own"""
     return vlib.workdir(os.path.join("payments", ("private-" if PRIVATE else "") + name))
@@ -30,7 +35,7 @@ def _tla_bool(b):
 
 def alphabet(cfg, dest):
     vlib.tlc("PaymentsAlphabet", os.path.join(SPEC, "PaymentsAlphabet.cfg"), env={"PM_CFG": cfg, "PM_OUT": dest},
-             workers=1, timeout=300, name="payments-alphabet")
+             workers=1, timeout=300, name=_nm("payments-alphabet"))
     return json.load(open(dest))
 
 
@@ -43,7 +48,7 @@ def leg_a(cfg, fee, pct, revoke_validates, mon, invariants, workers=8, timeout=1
                          "  Mon = \"%s\"\nVIEW View\nINVARIANTS %s\n%sCHECK_DEADLOCK FALSE\n" % (
                              cfg, fee, pct, _tla_bool(revoke_validates), mon, " ".join(invariants),
                              ("PROPERTIES %s\n" % " ".join(props)) if props else ""))
-    return vlib.tlc("MC_Payments", path, workers=workers, timeout=timeout, name="mc-payments")
+    return vlib.tlc("MC_Payments", path, workers=workers, timeout=timeout, name=_nm("mc-payments"))
 
 
 _EX = {}
@@ -94,7 +99,7 @@ def impl_tlc(ex, mon, exclude, invs, full, workers=1, timeout=3000):
     env = {"PM_NODES": ex["nodes"], "PM_ALPHABET": ex["alphabet"], "PM_FEE": ex["fee"], "PM_PCT": ex["pct"],
            "PM_REVOKE_VALIDATES": _bool(SWITCHES["revokeValidates"]), "PM_MON": mon, "PM_REPORT": report,
            "PM_EXCLUDE": exclude, "PM_FULL": "1" if full else "0"}
-    r = vlib.tlc("ImplPayments", cfg, env=env, workers=workers, timeout=timeout, name="impl-payments", heap="12g")
+    r = vlib.tlc("ImplPayments", cfg, env=env, workers=workers, timeout=timeout, name=_nm("impl-payments"), heap="12g")
     r["report"] = json.load(open(report))
     return r
 
@@ -159,7 +164,7 @@ def simulate(cfg, fee, pct, num, depth, seed, dest_dir):
                              cfg, fee, pct, _tla_bool(SWITCHES["revokeValidates"]), depth))
     r = vlib.tlc("SimPayments", cfgf, workers=1,
                  extra=["-simulate", "num=%d" % num, "-depth", str(depth + 2), "-seed", str(seed)],
-                 timeout=1800, name="sim-payments")
+                 timeout=1800, name=_nm("sim-payments"))
     seqs = []
     seen = set()
     for m in re.finditer(r'^<<"SIM", "(.*)">>$', r["out"], re.M):
@@ -179,7 +184,7 @@ def trace_tlc(steps_file, mon, fee, pct, exclude="", timeout=1800, invs=None, ju
     report = os.path.join(d, "trace_report_%s%s.json" % (mon, "_x" if exclude else ""))
     env = {"PM_STEPS": steps_file, "PM_FEE": fee, "PM_PCT": pct, "PM_REVOKE_VALIDATES": _bool(SWITCHES["revokeValidates"]),
            "PM_MON": mon, "PM_REPORT": report, "PM_EXCLUDE": exclude, "PM_JUDGE": judge}
-    r = vlib.tlc("TracePayments", cfg, env=env, workers=1, timeout=timeout, name="trace-payments", heap="12g")
+    r = vlib.tlc("TracePayments", cfg, env=env, workers=1, timeout=timeout, name=_nm("trace-payments"), heap="12g")
     r["report"] = json.load(open(report))
     return r
 
@@ -291,7 +296,7 @@ def conc_component(tier):
     vlib.tlc("ConcPayments", os.path.join(SPEC, "ConcPayments.cfg"),
              env={"CP_RUNS": runs_file, "CP_CASES": cases_file, "CP_REPORT": report, "PM_FEE": 0, "PM_PCT": 10,
                   "PM_REVOKE_VALIDATES": _bool(SWITCHES["revokeValidates"])},
-             workers=1, timeout=1800, name="conc-payments", heap="12g")
+             workers=1, timeout=1800, name=_nm("conc-payments"), heap="12g")
     rep = json.load(open(report))
     by_id = {c["id"]: c for c in cases}
 
@@ -352,7 +357,7 @@ def conc_replay(pid, rp):
     report = os.path.join(d, "report.json")
     vlib.tlc("ConcPayments", os.path.join(SPEC, "ConcPayments.cfg"),
              env={"CP_RUNS": rf, "CP_CASES": rf + ".cases", "CP_REPORT": report, "PM_FEE": 0, "PM_PCT": 10,
-                  "PM_REVOKE_VALIDATES": _bool(SWITCHES["revokeValidates"])}, workers=1, timeout=600, name="conc-payments-replay")
+                  "PM_REVOKE_VALIDATES": _bool(SWITCHES["revokeValidates"])}, workers=1, timeout=600, name=_nm("conc-payments-replay"))
     rep = json.load(open(report))
     print("  %s || %s: %d schedules, non-linearizable %d, overpaid only concurrently %d, stuck %d" % (
         _short(rp["a"]), _short(rp["b"]), rep["runs"], rep["n_nonlinearizable"], rep["n_overpaid"], len(rep["stuck"])))
